@@ -86,3 +86,49 @@ pub fn drop_candidates<T: Clone>(xs: &[T]) -> Vec<Vec<T>> {
     }
     out
 }
+
+/// Two real zbus connections wired back to back over simulated sockets (both pre-authenticated).
+pub async fn build_pair(a: SimSocket, b: SimSocket) -> zbus::Result<(Connection, Connection)> {
+    let ca = Builder::authenticated_socket(a, GUID)?.p2p().internal_executor(false).build().await?;
+    let cb = Builder::authenticated_socket(b, GUID)?.p2p().internal_executor(false).build().await?;
+    Ok((ca, cb))
+}
+
+/// Interfaces and child nodes of the top-level node of an introspection document.
+pub fn parse_introspection(xml: &str) -> (Vec<String>, Vec<String>) {
+    let mut depth = 0;
+    let (mut ifaces, mut children) = (vec![], vec![]);
+    let attr = |tag: &str| -> Option<String> {
+        let i = tag.find("name=\"")? + 6;
+        let j = tag[i..].find('"')? + i;
+        Some(tag[i..j].to_string())
+    };
+    let mut rest = xml;
+    while let Some(i) = rest.find('<') {
+        let Some(j) = rest[i..].find('>') else { break };
+        let tag = &rest[i + 1..i + j];
+        rest = &rest[i + j + 1..];
+        if tag.starts_with('!') || tag.starts_with('?') {
+            continue;
+        }
+        if tag.starts_with("/node") {
+            depth -= 1;
+        } else if tag.starts_with("node") {
+            if depth == 1 {
+                if let Some(n) = attr(tag) {
+                    children.push(n);
+                }
+            }
+            if !tag.ends_with('/') {
+                depth += 1;
+            }
+        } else if tag.starts_with("interface") && depth == 1 {
+            if let Some(n) = attr(tag) {
+                ifaces.push(n);
+            }
+        }
+    }
+    ifaces.sort();
+    children.sort();
+    (ifaces, children)
+}
